@@ -321,6 +321,7 @@ def run(ctx):
         raise CannotDecide('only %d completion send sites found (floor 4)' % len(sends))
 
 
+EXTRA_CONFIGS = ('default', 'tokio1', 'serde1', 'serde-transport')   # feature configurations re-analysed in the thorough tier
 META = {
     'level': 'other',
     'technique': 'static provenance / who-may-write analysis over type-checked MIR (custom rustc driver)',
